@@ -111,6 +111,43 @@ def check_process(n, prog, methods, env, acc):
     acc.outcome("%dq:%s" % (n, "complex_or_nonsymmetric" if complex_v else "real_symmetric"))
 
 
+def check_reuse(n, prog, edit, method, env, acc):
+    """process(); edit base in place; process() again on the same object; repeated fidelity queries."""
+    case = {"scenario": "reuse", "n_qubits": n, "prog": prog, "edit": edit, "method": method, "seed": env.seed}
+    base = tomo.build_base(n, prog)
+    acc.tick("executions", 2); acc.tick("transitions", 2)
+    try:
+        if method == "GF":
+            g = GateFidelity(n, base, experiment_for(n))
+            V1, _ = tomo.qubit_unitary(base, n)
+            f1 = g.process(V1)
+            for gg, q in edit:
+                base.add(getattr(lw.qubit, gg[0])(*gg[1:]), 2 * q)
+            V2, _ = tomo.qubit_unitary(base, n)
+            f2 = g.process(V2)
+            if abs(f1 - 1) > 1e-8 or abs(f2 - 1) > 1e-8:
+                acc.violation("second_process_call_ignores_edited_base_circuit", case, {"first": float(f1), "second": float(f2)})
+            return
+        t = (LIProcessTomography if method == "LI" else MLEProcessTomography)(n, base, experiment_for(n))
+        c1 = t.process().copy()
+        V1, _ = tomo.qubit_unitary(base, n)
+        ref1 = choi_from_unitary(V1)
+        fa, fb = t.fidelity(ref1), t.fidelity(ref1)
+        if abs(fa - fb) > 1e-9 or not np.allclose(t.choi, c1, atol=1e-12) or not np.allclose(ref1, choi_from_unitary(V1)):
+            acc.violation("fidelity_query_changes_result", case, {"first": float(fa), "second": float(fb),
+                                                                  "trace_after": complex(np.trace(t.choi))})
+        for gg, q in edit:
+            base.add(getattr(lw.qubit, gg[0])(*gg[1:]), 2 * q)
+        c2 = t.process()
+        V2, _ = tomo.qubit_unitary(base, n)
+        f2 = t.fidelity(choi_from_unitary(V2))
+        if (method == "LI" and np.abs(c2 - choi_from_unitary(V2)).max() > 1e-8) or not f2 >= 0.99:
+            acc.violation("second_process_call_ignores_edited_base_circuit", case,
+                          {"fidelity_to_new": float(f2), "equals_first_result": bool(np.allclose(c2, c1, atol=1e-6))})
+    except Exception as e:  # noqa: BLE001
+        acc.violation("tomography_raises", case, {"error": repr(e)})
+
+
 def run(tier, seed):
     env = Env(seed)
     one, two = programs(env, tier)
@@ -127,8 +164,19 @@ def run(tier, seed):
         jobs.append((n, prog, tuple(ms)))
     jobs.sort(key=lambda j: -len(j[2]) * j[0] ** 3)
 
+    a1 = tomo.one_qubit_alphabet(env)
+    reuse = [(1, [(a1[9], 0)], [(a1[4], 0)], m) for m in ("LI", "MLE", "GF")] + \
+            [(2, [(a1[6], 0), (a1[9], 1), (("CNOT", 0), 0)], [(("SWAP",), 0)], m) for m in ("LI", "GF")]
+
     def shard_fn(js):
         acc = kernel.Acc()
+        if js and js[0] is jobs[-1]:
+            for n, prog, edit, m in reuse:
+                if edit[0][0][0] == "SWAP":
+                    continue
+                check_reuse(n, prog, edit, m, env, acc)
+            check_reuse(2, [(a1[6], 0), (a1[9], 1), (("CNOT", 0), 0)], [(a1[0], 1), (a1[4], 0)], "LI", env, acc)
+            check_reuse(2, [(a1[6], 0), (a1[9], 1), (("CNOT", 0), 0)], [(a1[0], 1)], "GF", env, acc)
         for n, prog, ms in js:
             check_process(n, prog, ms, env, acc)
         if js:
@@ -156,5 +204,8 @@ def replay(w, acc):
     from .c01 import _tup
     case = w["case"]
     prog = [(_tup(g), q) for g, q in case["prog"]]
+    if case.get("scenario") == "reuse":
+        check_reuse(case["n_qubits"], prog, [(_tup(g), q) for g, q in case["edit"]], case["method"], Env(case.get("seed", 0)), acc)
+        return
     ms = (case["method"],) if "method" in case else ("LI", "MLE", "GF")
     check_process(case["n_qubits"], prog, ms, Env(case.get("seed", 0)), acc)
